@@ -80,12 +80,12 @@ theorem OkRun.mono (F : FloatOps) : ∀ (m n : Nat) (s t : State), m ≤ n → O
       exact ⟨h1, h2, fun s' t' e1 e2 => ih n s' t' (by omega) (h3 s' t' e1 e2)⟩
 
 /-- `invoke_eq_call_partial` for the child's real loop: `loopF` (abort check before every instruction) -/
-theorem invoke_loop_partial {bp k : Nat} (F : FloatOps) (hk : 1 ≤ k) (hbp : 1 ≤ bp) (n : Nat) (s t : State)
-    (h : ∃ d, ShB bp k d s t) (hok : OkRun F n s t) (s' : State)
+theorem invoke_loop_partial {T0 : State} {bp k : Nat} (F : FloatOps) (hk : 1 ≤ k) (hbp : 1 ≤ bp) (n : Nat) (s t : State)
+    (h : ∃ d, ShB T0 bp k d s t) (hok : OkRun F n s t) (s' : State)
     (hs : exec (loopF F n) s = (.ok (some ()), s')) (hna : s'.err ≠ some .aborted) :
     ∃ m s0, m < n ∧ runSteps F m s = some (.next, s0) ∧ exec (step F) s0 = (.ok .ret, s') ∧
       ∀ r0 t0, runSteps F m t = some (r0, t0) → r0 = .next ∧
-        ∀ r' t', exec (step F) t0 = (.ok r', t') → EndQ bp k r' s' t' := by
+        ∀ r' t', exec (step F) t0 = (.ok r', t') → EndQ T0 bp k r' s' t' := by
   rcases loopF_ret F n s s' hs with ⟨m, hm, hr⟩ | ha
   · obtain ⟨m', s0, h1, h2, h3, h4⟩ := invoke_eq_call_partial F hk hbp m s t h (OkRun.mono F m n s t hm hok) s' hr
     exact ⟨m', s0, by omega, h2, h3, h4⟩
